@@ -24,7 +24,7 @@ PROPS = {
     "C12": {"level": "exploration", "stages": ["native"]},
     "C13": {"level": "exploration", "stages": ["native"]},
     "C14": {"level": "exploration", "stages": ["c14"]},
-    "C15": {"level": "exploration", "stages": ["native"]},
+    "C15": {"level": "exploration", "stages": ["c15"]},
     "C16": {"level": "exploration", "stages": ["native"]},
 }
 
@@ -59,7 +59,11 @@ class Run:
         self.harness = os.path.join(root, "harness")
         self.results = os.path.join(root, "target", "results")
         os.makedirs(self.results, exist_ok=True)
-        os.makedirs(os.path.join(root, "evidence"), exist_ok=True)
+        # VERIF_EVIDENCE_DIR / VERIF_REPLAY_DIR redirect the outputs (used when the checks are run
+        # against seeded changes, so that the committed evidence is not overwritten)
+        self.evidence_dir = os.environ.get("VERIF_EVIDENCE_DIR", os.path.join(root, "evidence"))
+        self.replay_dir = os.environ.get("VERIF_REPLAY_DIR", os.path.join(root, "replays"))
+        os.makedirs(self.evidence_dir, exist_ok=True)
         self.docs = []  # (stage name, result document)
         self.calibration = []
         self.t0 = time.time()
@@ -262,6 +266,146 @@ class Run:
         doc["notes"] = doc["notes"][:10]
         return doc
 
+    # ------------------------------------------------------------------ C15: fast_verify builds
+    C15_BUILDS = [
+        # (threads, max hash optimizations, quick?)
+        (1, 100, True), (2, 7, True), (8, 100, True), (16, 1, True),
+        (1, 1, False), (1, 10000, False), (2, 100, False), (4, 7, False), (4, 10000, False), (8, 7, False), (16, 100, False), (16, 10000, False),
+    ]
+
+    def stage_c15(self):
+        from concurrent.futures import ThreadPoolExecutor
+        default = self.build_hbsmon()
+        self.calibrate(default)
+        builds = [b for b in self.C15_BUILDS if b[2] or self.tier == "thorough"]
+        base = os.path.join(self.root, "target", "c15")
+        os.makedirs(base, exist_ok=True)
+
+        def build(b):
+            t, m, _ = b
+            name = f"T{t}-M{m}"
+            tdir = os.path.join(base, name)
+            env = {"HBS_LMS_THREADS": str(t), "HBS_LMS_MAX_HASH_OPTIMIZATIONS": str(m)}
+            code, out = sh(["cargo", "build", "--release", "--offline", "-p", "hbsmon", "--features", "fv", "--target-dir", tdir], cwd=self.harness, env=env, timeout=1800)
+            return name, code, out, os.path.join(tdir, "release", "hbsmon")
+
+        with ThreadPoolExecutor(4) as ex:
+            built = list(ex.map(build, builds))
+        docs = []
+        for name, code, out, binp in built:
+            if code != 0:
+                raise Inconclusive(f"fast_verify build {name} failed: " + out[-500:])
+
+        def run(item):
+            name, code, out, binp = item
+            res = os.path.join(self.results, f"C15-{name}.json")
+            if os.path.exists(res):
+                os.remove(res)
+            env = dict(self.env); env["VERIF_C15_CONFIG"] = name
+            c, text = sh([binp, "C15", "--tier", self.tier, "--seed", str(self.seed), "--out", res], cwd=self.root, env=env, timeout=WATCHDOG[self.tier])
+            if c is None:
+                raise Inconclusive(f"watchdog: C15 driver of build {name} exceeded its wall-clock budget")
+            if c != 0 or not os.path.exists(res):
+                raise Inconclusive(f"C15 driver of build {name} failed (exit {c}): " + text[-500:])
+            return name, json.load(open(res))
+
+        def tsan():
+            tdir = os.path.join(base, "tsan")
+            env = {"HBS_LMS_THREADS": "8", "HBS_LMS_MAX_HASH_OPTIMIZATIONS": "100", "RUSTFLAGS": "-Zsanitizer=thread"}
+            code, out = sh(["cargo", "+nightly", "build", "-Zbuild-std", "--target", "x86_64-unknown-linux-gnu", "--release", "--offline", "-p", "hbsmon", "--features", "fv", "--target-dir", tdir], cwd=self.harness, env=env, timeout=3000)
+            if code != 0:
+                return "tsan", {"inconclusive": ["ThreadSanitizer build failed: " + out[-300:]]}
+            binp = os.path.join(tdir, "x86_64-unknown-linux-gnu", "release", "hbsmon")
+            res = os.path.join(self.results, "C15-tsan.json")
+            logp = os.path.join(self.results, "C15-tsan.log")
+            for f in [res] + [os.path.join(self.results, x) for x in os.listdir(self.results) if x.startswith("C15-tsan.log")]:
+                if os.path.exists(f):
+                    os.remove(f)
+            env = dict(self.env)
+            env.update({"VERIF_C15_CONFIG": "tsan-T8-M100", "VERIF_SANITIZER": "tsan", "TSAN_OPTIONS": f"halt_on_error=0 exitcode=0 log_path={logp}"})
+            c, text = sh([binp, "C15", "--tier", self.tier, "--seed", str(self.seed), "--out", res], cwd=self.root, env=env, timeout=WATCHDOG[self.tier])
+            if c != 0 or not os.path.exists(res):
+                return "tsan", {"inconclusive": [f"C15 driver under ThreadSanitizer failed (exit {c}): " + text[-300:]]}
+            d = json.load(open(res))
+            reports = []
+            for x in sorted(os.listdir(self.results)):
+                if x.startswith("C15-tsan.log"):
+                    body = open(os.path.join(self.results, x), errors="replace").read()
+                    for block in body.split("==================")[1:]:
+                        if "WARNING: ThreadSanitizer" in block:
+                            reports.append(block.strip())
+            d.setdefault("counters", {})["tsan_reports"] = len(reports)
+            seen = set()
+            for b in reports:
+                lines = [l.strip() for l in b.splitlines() if l.strip().startswith("#")]
+                # dedupe by the first frames inside the library under test
+                frames = [l.split(" ", 2)[1] if len(l.split(" ", 2)) > 1 else l for l in lines if "hbs_lms" in l or "hbs-lms" in l or "/repo/" in l][:2]
+                sig = "|".join(frames) or (lines[0] if lines else "?")
+                if sig in seen:
+                    continue
+                seen.add(sig)
+                d.setdefault("violations", []).append({"key": "C15:tsan:" + sig[:200], "what": "ThreadSanitizer report during sign_mut: " + b.splitlines()[0][:200], "count": 1, "replay": {"report": b[:3000]}})
+            return "tsan", d
+
+        def miri(seed_no):
+            tdir = os.path.join(base, "miri")
+            res = os.path.join(self.results, f"C15-miri-{seed_no}.json")
+            if os.path.exists(res):
+                os.remove(res)
+            env = dict(self.env)
+            env.update({"HBS_LMS_THREADS": "2", "HBS_LMS_MAX_HASH_OPTIMIZATIONS": "8", "VERIF_MIRI": "1", "VERIF_C15_CONFIG": f"miri-T2-M8-seed{seed_no}",
+                        "MIRIFLAGS": f"-Zmiri-disable-isolation -Zmiri-seed={seed_no}", "CARGO_TARGET_DIR": tdir})
+            c, text = sh(["cargo", "+nightly", "miri", "run", "--offline", "-p", "hbsmon", "--features", "fv", "--", "C15", "--tier", self.tier, "--seed", str(self.seed + seed_no), "--out", res, "--threads", "1"], cwd=self.harness, env=env, timeout=3000)
+            name = f"miri-seed{seed_no}"
+            if c == 0 and os.path.exists(res):
+                d = json.load(open(res))
+                d.setdefault("counters", {})["miri_runs"] = 1
+                return name, d
+            tail = text[-3000:]
+            if "Undefined Behavior" in text or "Data race detected" in text or "data race" in text.lower():
+                first = [l for l in text.splitlines() if l.startswith("error")]
+                return name, {"violations": [{"key": "C15:miri:" + (first[0][:160] if first else "undefined behaviour"), "what": "Miri reports undefined behaviour / a data race while running sign_mut (seed %d)" % seed_no, "count": 1, "replay": {"miri_seed": seed_no, "output": tail}}]}
+            return name, {"inconclusive": [f"Miri run (seed {seed_no}) failed without reporting undefined behaviour (exit {c}): " + tail[-400:]]}
+
+        nseeds = 2 if self.tier == "quick" else 12
+        with ThreadPoolExecutor(8) as ex:
+            f_t = ex.submit(tsan)
+            f_m = [ex.submit(miri, k) for k in range(nseeds)]
+            f_n = [ex.submit(run, b) for b in built]
+            docs = [f.result() for f in f_n] + [f_t.result()] + [f.result() for f in f_m]
+        merged = self.merge_docs(docs)
+        pats = {}
+        for name, d in docs:
+            pats[name] = d.get("counters", {}).get("distinct_worker_overlap_patterns", 0)
+        merged["counters"]["overlap_patterns_per_build"] = pats
+        for name, n in pats.items():
+            if name.startswith("T"):
+                t = int(name.split("-")[0][1:])
+                if t >= 4 and n < 2:
+                    merged["inconclusive"].append(f"build {name}: fewer than 2 distinct worker overlap patterns observed")
+        merged["rule"] += " ; additionally the same driver runs under ThreadSanitizer (-Zsanitizer=thread, build-std; THREADS=8) and under Miri (THREADS=2, tiny key, one seed = one schedule per run): any race / undefined-behaviour report is a violation"
+        return merged
+
+    @staticmethod
+    def merge_docs(docs):
+        """merge the result documents of several driver runs into one"""
+        m = {"evaluations": 0, "distinct_nontrivial": 0, "samples": [], "violations": [], "inconclusive": [], "counters": {}, "notes": [], "assumptions": [], "rule": "", "extra": {}}
+        for name, d in docs:
+            m["evaluations"] += d.get("evaluations", 0)
+            m["distinct_nontrivial"] += d.get("distinct_nontrivial", 0)
+            m["samples"] += d.get("samples", [])[:3]
+            m["violations"] += d.get("violations", [])
+            m["inconclusive"] += [f"{name}: {w}" for w in d.get("inconclusive", [])]
+            for k, v in d.get("counters", {}).items():
+                if isinstance(v, (int, float)):
+                    m["counters"][k] = m["counters"].get(k, 0) + v
+            for a in d.get("assumptions", []):
+                if a not in m["assumptions"]:
+                    m["assumptions"].append(a)
+            m["rule"] = m["rule"] or d.get("rule", "")
+            m["extra"][name] = d.get("extra", {})
+        return m
+
     # ------------------------------------------------------------------ verdict
     def known_findings(self):
         p = os.path.join(self.root, "known_findings.json")
@@ -292,7 +436,7 @@ class Run:
         for v, f in known_seen:
             print(f"KNOWN-FINDING: property={self.prop} {f['key']} {f.get('what', v['what'])} (seen {v.get('count', 1)}x)")
         if violations:
-            rdir = os.path.join(self.root, "replays")
+            rdir = self.replay_dir
             os.makedirs(rdir, exist_ok=True)
             for k, (st, v) in enumerate(violations):
                 path = os.path.join(rdir, f"{self.prop}-{self.tier}-{self.seed}-{k}.json")
@@ -353,7 +497,7 @@ class Run:
             "wall_s": round(wall, 2),
             "violations": len(violations),
         }
-        path = os.path.join(self.root, "evidence", f"{self.prop}.json")
+        path = os.path.join(self.evidence_dir, f"{self.prop}.json")
         tmp = path + ".tmp"
         json.dump(ev, open(tmp, "w"), indent=1, sort_keys=True)
         os.replace(tmp, path)
